@@ -8,6 +8,7 @@ use std::rc::Rc;
 use std::sync::Arc;
 use std::thread;
 
+use crate::cancel::CancelDisableGuard;
 use crate::coroutine_impl::{spawn_builder, Builder, Coroutine};
 use crate::join::JoinHandle;
 use crate::sync::AtomicOption;
@@ -48,7 +49,17 @@ impl JoinState {
         let mut state = JoinState::Joined;
         mem::swap(self, &mut state);
         if let JoinState::Running(handle) = state {
-            let res = handle.join();
+            // this join must not be a cancellation point: the handle is already moved
+            // out of the state, a Cancel panic here would detach this coroutine and
+            // the rest of the scope would not be waited (park returns at once while
+            // unwinding), they may still use the stack frame of the scope owner.
+            // with the cancel disabled we really block until the coroutine is done,
+            // a pending cancel is delivered at the next cancellation point of the owner.
+            // the guard is dropped before the result is re-thrown below
+            let res = {
+                let _g = CancelDisableGuard::new();
+                handle.join()
+            };
 
             // TODO: when panic happened, the logic need to refine
             if !thread::panicking() {
